@@ -1,12 +1,19 @@
 import GeffModel.WRJson
+import GeffModel.StoreTree
 open Lean Geff Geff.Proto Geff.Store Geff.WR Geff.WRJson
 
 /-- requests:
   {"op":"write","g":geff,"md":meta,"node_unsquish":…,"edge_unsquish":…,"store":[…]?}  → outcome (+ store)
   {"op":"read","store":[…]}                                                        → outcome (+ geff, md)
   {"op":"roundtrip","g":…,"md":…}                                                  → outcome of write then read
-Structural validation (C04) is not part of these models: `validate := fun _ => ok`. -/
+`"validate": true` runs the structural validator (C04's model through `Geff.Bridge.validate`) where
+`write_arrays` / `read_to_memory` call `validate_structure`; default false. -/
 def noValidate : St → Outcome Unit := fun _ => pure ()
+
+def validatorOf (j : Json) : St → Outcome Unit :=
+  match j.getObjVal? "validate" with
+  | .ok (.bool true) => Geff.Bridge.validate
+  | _ => noValidate
 
 def handle (j : Json) : Except String Json := do
   let op ← (← j.getObjVal? "op").getStr?
@@ -18,10 +25,10 @@ def handle (j : Json) : Except String Json := do
     let s0 ← match j.getObjVal? "store" with
       | .ok st => storeOfJson st
       | .error _ => pure []
-    pure (outcomeJson (writeArrays vlenCodec noValidate s0 g md u) (fun s => [("store", storeToJson s)]))
+    pure (outcomeJson (writeArrays vlenCodec (validatorOf j) s0 g md u) (fun s => [("store", storeToJson s)]))
   | "read" =>
     let s ← storeOfJson (← j.getObjVal? "store")
-    pure (outcomeJson (readToMemory vlenCodec noValidate s)
+    pure (outcomeJson (readToMemory vlenCodec (validatorOf j) s)
       (fun r => [("geff", readResultToJson r), ("md", geffAttrToJson r.md)]))
   | "roundtrip" =>
     let g ← inMemOfJson (← j.getObjVal? "g")
